@@ -112,11 +112,21 @@ static void note_notify_child (nsync_note n, nsync_note parent) {
 	}
 }
 
+/* Return whether no thread is disconnecting the note v.  Assumes its note_mu held. */
+static int not_disconnecting (const void *v) {
+	return (((nsync_note)v)->disconnecting == 0);
+}
+
 /* Notify *n and all its descendants that are not already disconnnecting.
    No locks are held. */
 static void notify (nsync_note n) {
 	nsync_time t;
 	nsync_mu_lock (&n->note_mu);
+	/* If another thread is already disconnecting *n from its parent, wait
+	   for it to finish.  n->disconnecting pins *n in its parent's child list
+	   only until the first such thread unlinks it; a second thread that still
+	   went for the parent could find it already freed.  */
+	nsync_mu_wait (&n->note_mu, &not_disconnecting, n, NULL);
 	t = NOTIFIED_TIME (n);
 	if (nsync_time_cmp (t, nsync_time_zero) > 0) {
 		nsync_note parent;
